@@ -480,7 +480,10 @@ class SV:
             return True
         return self._cmp(o, lambda a, b: a != b)
 
-    __hash__ = None
+    def __hash__(self):
+        # structural hash of the term: the same term always meets itself in a dict/set; two different terms that
+        # could be equal in value are treated as different keys (under-approximation, irrelevant for the code analysed)
+        return hash(self.e)
 
     # conversions
     def __float__(self):
